@@ -253,3 +253,18 @@ func Emit(name string) string {
 	}
 	return "no-hook"
 }
+
+// Label takes a value that is rendered through its String() method.
+//
+//go:noinline
+func Label(o fmt.Stringer) string { return fmt.Sprintf("real-label-%d", pad(len(o.String()))) }
+
+// Rec is an argument whose String() calls Label again - the very function it is handed to.
+type Rec struct{ N int }
+
+func (r Rec) String() string {
+	if r.N < 100 {
+		return "rec(" + Label(Rec{r.N + 100}) + ")"
+	}
+	return "rec-leaf"
+}
